@@ -591,7 +591,8 @@ impl<T: BitWrite> PackedWrite for T {
                 // 11.9.3.8: chunks of 16k multiples
                 self.write_bit(true)?;
                 self.write_bit(true)?;
-                let multiple = ((value / LENGTH_16K) as u8).min(MAX_FRAGMENTS);
+                // limit before narrowing: 256 or more blocks of 16K do not fit a u8
+                let multiple = (value / LENGTH_16K).min(u64::from(MAX_FRAGMENTS)) as u8;
                 self.write_bits_with_offset(&[multiple], 2)?;
                 Ok(Some(u64::from(multiple) * LENGTH_16K))
             }
